@@ -555,17 +555,15 @@ impl QosPolicies {
     let ownership_strength: Option<i32> = get_option!(PID_OWNERSHIP_STRENGTH);
     let ownership = match (ownership_kind, ownership_strength) {
       (Some(OwnershipKind::Shared), None) => Some(policy::Ownership::Shared),
-      (Some(OwnershipKind::Shared), Some(_strength)) => {
-        warn!("QosPolicies deserializer: Received OwnershipKind::Shared and a strength value.");
-        None
-      }
+      // OWNERSHIP_STRENGTH is a policy of its own (DDS 1.4 Section 2.2.3.10). It may be present
+      // also with Shared ownership, where it has no effect.
+      (Some(OwnershipKind::Shared), Some(_strength)) => Some(policy::Ownership::Shared),
       (Some(OwnershipKind::Exclusive), Some(strength)) => {
         Some(policy::Ownership::Exclusive { strength })
       }
-      (Some(OwnershipKind::Exclusive), None) => {
-        warn!("QosPolicies deserializer: Received OwnershipKind::Exclusive but no strength value.");
-        None
-      }
+      // An absent OWNERSHIP_STRENGTH parameter means the default value, which is zero.
+      // E.g. a DataReader has no strength to announce.
+      (Some(OwnershipKind::Exclusive), None) => Some(policy::Ownership::Exclusive { strength: 0 }),
       (None, Some(_strength)) => {
         warn!(
           "QosPolicies deserializer: Received ownership strength value, but no kind parameter."
